@@ -9,25 +9,42 @@ HI = REF("HeaderItem")
 SI = REF("SectionItems")
 
 # ---------------------------------------------------------------- vocabulary
-suf = z3.Function("suf", S, I, S)          # u + ":%d" % k
+# The heavy obligations (WF preservation) are proved over an ABSTRACT string
+# vocabulary - usefulf, keyf, suf, issuf are uninterpreted and constrained only by
+# the T-str axioms below (each validated against CPython by bounded/axioms_check.py).
+# Their definitions are *revealed* only to the contracts of the three small functions
+# that implement them (useful_mnemonic, mnemonic_compare, assign_duplicate_suffixes).
+suf = z3.Function("suf", S, I, S)            # u + ":%d" % k
+issuf = z3.Function("issuf", S, S, B)        # s == u + ":%d" % k for some k >= 1
+usefulf = z3.Function("usefulf", S, S)       # "UNKNOWN" if o.strip() == "" else o
+keyf = z3.Function("keyf", B, S, S)          # x.upper() if transforms else x
 UNKNOWN = z3.StringVal("UNKNOWN")
-_u, _v, _j, _k2 = z3.String("ax_u"), z3.String("ax_v"), z3.Int("ax_j"), z3.Int("ax_k2")
+_u, _v, _j, _k2, _b = z3.String("ax_u"), z3.String("ax_v"), z3.Int("ax_j"), z3.Int("ax_k2"), z3.Bool("ax_b")
+_w = z3.String("ax_w")
 REG.axioms += [
-    ("T-str:suf-def", z3.ForAll([_u, _j], suf(_u, _j) == z3.Concat(_u, z3.StringVal(":"), fmt_d(_j)), patterns=[suf(_u, _j)])),
+    # definitions (revealed on request)
+    ("T-str:suf-def", z3.ForAll([_u, _j], suf(_u, _j) == z3.Concat(_u, z3.StringVal(":"), fmt_d(_j)), patterns=[suf(_u, _j)]), "suf"),
+    ("def:usefulf", z3.ForAll([_u], usefulf(_u) == z3.If(strip(_u) == z3.StringVal(""), UNKNOWN, _u), patterns=[usefulf(_u)]), "usefulf"),
+    ("def:keyf", z3.ForAll([_b, _u], keyf(_b, _u) == z3.If(_b, upper(_u), _u), patterns=[keyf(_b, _u)]), "keyf"),
+    # abstract theory (always on)
     ("T-str:suf-injective", z3.ForAll([_u, _v, _j, _k2], z3.Implies(
         z3.And(_j >= 1, _k2 >= 1, suf(_u, _j) == suf(_v, _k2)), z3.And(_u == _v, _j == _k2)),
         patterns=[z3.MultiPattern(suf(_u, _j), suf(_v, _k2))])),
-    ("T-str:upper-suf", z3.ForAll([_u, _j], upper(suf(_u, _j)) == suf(upper(_u), _j), patterns=[upper(suf(_u, _j))])),
+    ("T-str:key-of-suf", z3.ForAll([_b, _u, _j], keyf(_b, suf(_u, _j)) == suf(keyf(_b, _u), _j), patterns=[keyf(_b, suf(_u, _j))])),
+    ("T-str:issuf-intro", z3.ForAll([_u, _j], z3.Implies(_j >= 1, issuf(suf(_u, _j), _u)), patterns=[suf(_u, _j)])),
+    ("T-str:issuf-key", z3.ForAll([_b, _u, _v], z3.Implies(issuf(_u, _v), issuf(keyf(_b, _u), keyf(_b, _v))),
+                                  patterns=[z3.MultiPattern(issuf(_u, _v), keyf(_b, _u))])),
+    ("T-str:issuf-functional", z3.ForAll([_w, _u, _v], z3.Implies(z3.And(issuf(_w, _u), issuf(_w, _v)), _u == _v),
+                                         patterns=[z3.MultiPattern(issuf(_w, _u), issuf(_w, _v))])),
 ]
 
 
 def useful(orig, r):
-    o = z3.Select(orig, r)
-    return z3.If(strip(o) == z3.StringVal(""), UNKNOWN, o)
+    return usefulf(z3.Select(orig, r))
 
 
 def key(tr, x):
-    return z3.If(tr, upper(x), x)
+    return keyf(tr, x)
 
 
 class View:
@@ -36,8 +53,8 @@ class View:
     def __init__(s, c, old=False, selfname="self"):
         hh = c.old if old else c.h
         s.s = c.a[selfname].t
-        s.n = z3.Select(hh("$len"), s.s)
-        s.A = z3.Select(hh("$items"), s.s)
+        s.n = z3.simplify(z3.Select(hh("$len"), s.s))
+        s.A = z3.simplify(z3.Select(hh("$items"), s.s))
         s.orig = hh("original_mnemonic")
         s.sess = hh("mnemonic")
         s.tr = z3.Select(hh("mnemonic_transforms"), s.s)
@@ -78,8 +95,7 @@ def wf(v):
     return [
         ("distinct-objects", distinct_objects(v)),
         ("session-is-useful-or-suffixed", forall(p, z3.Implies(v.inrange(p), z3.Or(
-            v.sess_at(p) == v.U_at(p),
-            z3.Exists([kk], z3.And(kk >= 1, v.sess_at(p) == suf(v.U_at(p), kk))))))),
+            v.sess_at(p) == v.U_at(p), issuf(v.sess_at(p), v.U_at(p)))))),
         ("session-names-pairwise-distinct", forall([p, q], z3.Implies(
             z3.And(v.inrange(p), v.inrange(q), p != q), key(v.tr, v.sess_at(p)) != key(v.tr, v.sess_at(q))))),
     ]
@@ -90,10 +106,11 @@ def noclash(v, extra_u=None):
     form <text>:<k>, k >= 1.  Its negation is the class of the known finding
     'A, A, A:1' (a name that collides with a generated suffix)."""
     w = z3.String("w")
-    cl = [z3.ForAll([p, w, kk], z3.Implies(z3.And(v.inrange(p), kk >= 1), key(v.tr, v.U_at(p)) != suf(w, kk)),
-                    patterns=[z3.MultiPattern(v.item(p), suf(w, kk))])]
+    member = z3.Exists([p], z3.And(v.inrange(p), v.item(p) == r_))
+    cl = [z3.ForAll([r_, w], z3.Implies(member, z3.Not(issuf(key(v.tr, useful(v.orig, r_)), w))),
+                    patterns=[z3.MultiPattern(z3.Select(v.orig, r_), issuf(key(v.tr, useful(v.orig, r_)), w))])]
     if extra_u is not None:
-        cl.append(z3.ForAll([w, kk], z3.Implies(kk >= 1, key(v.tr, extra_u) != suf(w, kk)), patterns=[suf(w, kk)]))
+        cl.append(z3.ForAll([w], z3.Not(issuf(key(v.tr, extra_u), w)), patterns=[issuf(key(v.tr, extra_u), w)]))
     return z3.And(cl)
 
 
@@ -106,9 +123,12 @@ def in_group(A, orig, tr, t, i):
 
 
 def grank_axioms(A, orig, tr, t):
-    g = lambda i: grank(A, orig, tr, t, i)
-    return [g(0) == 0,
-            z3.ForAll([p], z3.Implies(p >= 0, g(p + 1) == g(p) + z3.If(in_group(A, orig, tr, t, p), 1, 0)), patterns=[g(p + 1)]),
+    # patterns may not contain ite/store-heavy terms: name the arrays
+    Ac = z3.Const(fresh_name("A_named"), A.sort())
+    oc = z3.Const(fresh_name("orig_named"), orig.sort())
+    g = lambda i: grank(Ac, oc, tr, t, i)
+    return [Ac == A, oc == orig, g(0) == 0,
+            z3.ForAll([p], z3.Implies(p >= 0, g(p + 1) == g(p) + z3.If(in_group(Ac, oc, tr, t, p), 1, 0)), patterns=[g(p + 1)]),
             z3.ForAll([p], z3.Implies(p >= 0, g(p) >= 0), patterns=[g(p)])]
 
 
@@ -122,7 +142,7 @@ HI_FIELDS = ["original_mnemonic", "mnemonic", "unit", "value", "descr", "data"]
 REG.add(Contract(
     "las_items.HeaderItem.useful_mnemonic", params={"self": HI},
     ensures=lambda c: [("useful", c.res.t == useful(c.h("original_mnemonic"), c.a["self"].t))],
-    returns=STR, properties=("C13", "C17"), noraise=True))
+    returns=STR, properties=("C13", "C17"), noraise=True, reveal=("usefulf",)))
 
 REG.add(Contract("las_items.HeaderItem.set_session_mnemonic_only", params={"self": HI, "value": STR}, inline=True))
 REG.add(Contract("las_items.HeaderItem.__setattr__", params={"self": HI, "key": STR, "value": "any"}, inline=True))
@@ -158,7 +178,7 @@ MC_SS = REG.add(Contract(
     "las_items.SectionItems.mnemonic_compare", case="str,str",
     params={"self": SI, "one": STR, "two": STR},
     ensures=lambda c: [("result", c.res.t == View(c).cmp(c.a["one"].t, c.a["two"].t))],
-    returns=BOOL, properties=("C13", "C15"), noraise=True))
+    returns=BOOL, properties=("C13", "C15"), noraise=True, reveal=("keyf",)))
 
 for _case, _one, _two in (("int,str", INT, STR), ("str,int", STR, INT), ("item,str", HI, STR), ("str,item", STR, HI)):
     REG.add(Contract(
@@ -357,7 +377,7 @@ ADS = REG.add(Contract(
     loops={1: ads_loop0, 2: ads_loop1},
     ghost_init=ads_init,
     local_types={"locations": LIST(INT)},
-    properties=("C13",), noraise=True,
+    properties=("C13",), noraise=True, reveal=("suf",),
     post_hook=lambda c, st: [st.assume(a) for a in grank_axioms(View(c).A, View(c).orig, View(c).tr, c.a["test_mnemonic"].t)],
 ))
 
@@ -385,8 +405,7 @@ def new_item_pre(c):
         ("new-item-allocated", z3.And(z3.Select(v.alloc, x), x != v.s)),
         ("new-item-not-already-in-section", forall(p, z3.Implies(v.inrange(p), v.item(p) != x))),
         ("new-item-session-is-useful-or-suffixed", z3.Or(
-            z3.Select(v.sess, x) == useful(v.orig, x),
-            z3.Exists([kk], z3.And(kk >= 1, z3.Select(v.sess, x) == suf(useful(v.orig, x), kk))))),
+            z3.Select(v.sess, x) == useful(v.orig, x), issuf(z3.Select(v.sess, x), useful(v.orig, x)))),
     ]
 
 
@@ -404,7 +423,7 @@ def wf_lemmas(c):
     ing = lambda i: in_group(v.A, v.orig, v.tr, t, i)
     many = g(v.n) > 1
     keyform = lambda i: z3.Or(key(v.tr, v.sess_at(i)) == key(v.tr, v.U_at(i)),
-                              z3.Exists([kk], z3.And(kk >= 1, key(v.tr, v.sess_at(i)) == suf(key(v.tr, v.U_at(i)), kk))))
+                              issuf(key(v.tr, v.sess_at(i)), key(v.tr, v.U_at(i))))
     return [
         ("lemma:new-item-is-a-member", z3.Exists([p], z3.And(v.inrange(p), v.item(p) == x, ing(p)))),
         ("lemma:objects-distinct", distinct_objects(v)),
@@ -464,3 +483,109 @@ INSERT = REG.add(Contract(
     + mutator_post_wf(c) + numbered_post(c),
     modifies=dict(SEQ_FRAME, mnemonic=group_of_new),
     properties=("C13", "C14"), noraise=True))
+
+
+# ---------------------------------------------------------------- set_item / set_item_value / __setitem__
+def replaced_at(vnew, vold, i, x):
+    return z3.And(vnew.n == vold.n, vnew.item(i) == x,
+                  forall(q, z3.Implies(z3.And(vold.inrange(q), q != i), vnew.item(q) == vold.item(q))))
+
+
+def set_item_inv(c):
+    v = View(c)
+    return [("no-match-so-far", forall(p, z3.Implies(z3.And(0 <= p, p < c.i), z3.Not(v.cmp(c.a["key"].t, v.sess_at(p)))))),
+            ("heap-unchanged-so-far", z3.And(c.h("$len") == c.old("$len"), c.h("$items") == c.old("$items"),
+                                             c.h("mnemonic") == c.old("mnemonic")))]
+
+
+def set_item_post(c):
+    v, v0 = View(c), View(c, old=True)
+    k, x = c.a["key"].t, c.a["newitem"].t
+    return [("present:replaces-the-first-match", z3.Implies(z3.Not(nomatch(v0, k)),
+                                                          exists_hint(c, kk, lambda w: z3.And(first_match(v0, k, w), replaced_at(v, v0, w, x)), ("i",)))),
+            ("absent:appends", z3.Implies(nomatch(v0, k), appended(v, v0, x)))] + mutator_post_wf(c) + numbered_post(c)
+
+
+SET_ITEM = REG.add(Contract(
+    "las_items.SectionItems.set_item", params={"self": SI, "key": STR, "newitem": HI},
+    requires=mutator_pre, ensures=set_item_post,
+    modifies=dict(SEQ_FRAME, mnemonic=group_of_new), loops={0: set_item_inv},
+    properties=("C13", "C15"), noraise=True))
+
+
+def only_first_match(c, r):
+    v = View(c)
+    return z3.Exists([kk], z3.And(first_match(v, c.a["key"].t, kk), v.item(kk) == r))
+
+
+SET_VALUE = REG.add(Contract(
+    "las_items.SectionItems.set_item_value", params={"self": SI, "key": STR, "value": OBJ},
+    requires=shape,
+    raises=[("KeyError", lambda c: nomatch(View(c), c.a["key"].t))],
+    ensures=lambda c: [("value-of-first-match-set", z3.Exists([kk], z3.And(
+        first_match(View(c, old=True), c.a["key"].t, kk),
+        z3.Select(c.h("value"), View(c).item(kk)) == c.a["value"].t)))],
+    modifies={"value": only_first_match},
+    properties=("C15",)))
+
+SETITEM_ITEM = REG.add(Contract(
+    "las_items.SectionItems.__setitem__", case="item", params={"self": SI, "key": STR, "newitem": HI},
+    requires=mutator_pre, ensures=set_item_post,
+    modifies=dict(SEQ_FRAME, mnemonic=group_of_new), properties=("C13", "C15"), noraise=True))
+
+SETITEM_VAL = REG.add(Contract(
+    "las_items.SectionItems.__setitem__", case="value", params={"self": SI, "key": STR, "newitem": STR},
+    requires=shape,
+    raises=[("KeyError", lambda c: nomatch(View(c), c.a["key"].t))],
+    ensures=lambda c: [("only-that-items-value-changes", z3.Exists([kk], z3.And(
+        first_match(View(c, old=True), c.a["key"].t, kk),
+        z3.Select(c.h("value"), View(c).item(kk)) == obj_of_str(c.a["newitem"].t))))],
+    modifies={"value": only_first_match}, properties=("C15",)))
+
+# ---------------------------------------------------------------- __getattr__ / keys / get
+GETATTR = REG.add(Contract(
+    "las_items.SectionItems.__getattr__", params={"self": SI, "key": STR},
+    requires=shape,
+    raises=[("AttributeError", lambda c: z3.Or(c.a["key"].t == z3.StringVal("mnemonic_transforms"),
+                                              nomatch(View(c), c.a["key"].t)))],
+    ensures=lambda c: [("same-item-as-item-access",
+                        z3.Exists([kk], z3.And(first_match(View(c), c.a["key"].t, kk), c.res.t == View(c).item(kk))))],
+    returns=HI, properties=("C15",)))
+
+KEYS = REG.add(Contract(
+    "las_items.SectionItems.keys", params={"self": SI},
+    requires=shape,
+    ensures=lambda c: [("length", c.res.n == View(c).n),
+                       ("session-names-in-order", forall(p, z3.Implies(View(c).inrange(p),
+                                                                        z3.Select(c.res.cols[0], p) == View(c).sess_at(p))))],
+    returns=LIST(STR), properties=("C14", "C15"), noraise=True))
+
+
+def get_post(c):
+    v, v0 = View(c), View(c, old=True)
+    k = c.a["mnemonic"].t
+    found = z3.Exists([kk], z3.And(first_match(v0, k, kk), c.res.t == v0.item(kk)))
+    return [
+        ("present:returns-first-match", z3.Implies(z3.Not(nomatch(v0, k)), found)),
+        ("present:section-unchanged", z3.Implies(z3.Not(nomatch(v0, k)), z3.And(v.n == v0.n, v.A == v0.A))),
+        ("absent:new-item-carries-the-key", z3.Implies(nomatch(v0, k), z3.And(
+            z3.Not(z3.Select(v0.alloc, c.res.t)), z3.Select(v.orig, c.res.t) == k))),
+    ]
+
+
+GET_NOADD = REG.add(Contract(
+    "las_items.SectionItems.get", case="str-default,add=False",
+    params={"self": SI, "mnemonic": STR, "default": STR, "add": CONST(False)},
+    requires=shape,
+    ensures=lambda c: get_post(c) + [("without-add-the-section-never-changes", z3.And(View(c).n == View(c, old=True).n,
+                                                                                    View(c).A == View(c, old=True).A))],
+    returns=HI, properties=("C15",), may_raise=[]))
+
+GET_ADD = REG.add(Contract(
+    "las_items.SectionItems.get", case="str-default,add=True",
+    params={"self": SI, "mnemonic": STR, "default": STR, "add": CONST(True)},
+    requires=lambda c: shape(c) + wf(View(c)) + [("NoClash", noclash(View(c), usefulf(c.a["mnemonic"].t)))],
+    ensures=lambda c: get_post(c) + [("absent:appends-exactly-one-item", z3.Implies(
+        nomatch(View(c, old=True), c.a["mnemonic"].t), appended(View(c), View(c, old=True), c.res.t)))],
+    modifies=dict(SEQ_FRAME, mnemonic=None),
+    returns=HI, properties=("C15",)))
